@@ -10,7 +10,7 @@ EXPLANATION = ("R04.1 must-reach chains, decided as decision tables of every lin
                "Write::flush of the active writer; async file writer: send(SHUTDOWN payload) then join of the writer thread, whose SHUTDOWN arm "
                "runs State::shutdown before leaving and whose FLUSH arm flushes; flush() of the sync modes reaches Write::flush under the state "
                "lock; allowed skips: poisoned lock, component None, state Initial; R04.2 no type that is both Clone and Drop shuts writers down "
-               "in its Drop without last-owner evidence; R04.3 no mem::forget/leak; R04.4 consumer loops leave only on disconnect or SHUTDOWN.")
+               "in its Drop without last-owner evidence; R04.3 no mem::forget/leak; R04.4 consumer loops leave only on disconnect or SHUTDOWN. R04.4 the message arms are decided on the rows of the consumer (after FLUSH a flush, after a data message a write, before the next receive).")
 ASSUMPTIONS = ["BufWriter::flush writes all buffered bytes to the File (std)", "channels are FIFO per sender (crossbeam)", "custom writers' own shutdown is user code"]
 NOT_DECIDED = ["durability beyond flush (page cache)", "timing of the flusher threads (they only add flushes)", "custom writers' shutdown"]
 FLOORS = {'R04.1': 9, 'R04.2': 1, 'R04.3': 1}
@@ -49,8 +49,7 @@ def fan_out(R, ctx, path, what, primary_eff, key):
     """function must call `what` on the primary writer and on every element of other_writers.values()"""
     b = ctx.f.bodies.get(path)
     if b is None:
-        R.bad('R04.1', key, f"{path} not found", where=None)
-        return
+        raise CheckError(f"R04.1: anchor {path} not found (renamed beyond what the baseline matching resolves, or removed): the fan-out rule cannot be decided")
     rows, I = rows_of(ctx, path, [what, r'Iterator>::next$', r'HashMap::<K, V, S(, A)?>::values$'], ni=[what], k=2)
     bad = None
     n = 0
@@ -303,8 +302,7 @@ def consumer_loops(R, ctx):
     for spawner, need_shutdown in (('writers::file_log_writer::state::start_async_fs_writer', True), ('threads::start_async_stdwriter', False)):
         clo = [f.bodies[e] for e in spawned_entries(cg, spawner) if e in f.bodies and cg.reaches_effect(e, lambda n_, t_: n_.endswith('Receiver::<T>::recv'), spawn=False)]
         if len(clo) != 1:
-            R.bad('R04.4', f"{spawner}|consumer", f"consumer closure of {spawner} not found ({len(clo)})", where=None)
-            continue
+            raise CheckError(f"R04.4: the consumer thread of {spawner} (a spawned entry reaching a blocking recv) is not unique ({len(clo)}): form not recognised")
         x = clo[0]
         EFF = [r'Receiver::<T>::recv$', r'State::(flush|shutdown|write_buffer)$', r'::flush$', r'::write_all$', r'Vec::<T, A>::clear$', r'ArrayQueue::<T>::push$', r'Mutex::<T>::lock$']
         I = FDI(f, effects=EFF, no_inline=[r'State::(flush|shutdown|write_buffer)$', r'util::eprint_err$', r'StdStream::deref_mut$'], loop_k=1, max_steps=6000)
